@@ -19,6 +19,7 @@ from fractions import Fraction
 
 import numpy as np
 
+from . import c20_types as T
 from . import common
 from .common import Ctx, frac, rs
 
@@ -422,6 +423,47 @@ def gen_y(rng, x, shape_tail, w):
     return y, polys
 
 
+CORR_DT = ["bool"] + T.INT_DT      # dtypes of the typed correspondence (x, y, x_new handed to the code; the model gets the values)
+
+
+def gen_integer_samples(rng, n, w, tail, k):
+    """integer-valued samples (as float64 arrays): integer nodes, integer ordinates (integer polynomials of degree
+    < w in x - x[0], random integers, or 0/1), x_new integers / half-integers / anything — what a caller holding
+    counts, ticks or integer nanoseconds hands in, in whatever integer dtype"""
+    small = rng.random() < 0.3        # fits the 8-bit types
+    x0 = rng.randint(0, 20) if small else rng.randint(-300, 300)
+    steps = [rng.randint(1, 2 if small else 4) for _ in range(n)]
+    x = np.cumsum([x0] + steps[:-1]).astype(float)
+    rngx = float(x[-1] - x[0])
+    d = x - x[0]
+    size = int(np.prod(tail)) if tail else 1
+    cols, polys = [], []
+    for _ in range(size):
+        c = rng.random()
+        if c < 0.45 and not small:
+            deg = rng.randint(0, min(w - 1, 3))
+            co = [rng.randint(-4, 4) for _ in range(deg + 1)]
+            cols.append(sum(cj * d ** j for j, cj in enumerate(co)))
+            polys.append([cj * rngx ** j for j, cj in enumerate(co)])       # coefficients in t = (x - x0)/range
+        elif c < 0.6:
+            cols.append(np.array([float(rng.randint(0, 1)) for _ in range(n)]))
+            polys.append(None)
+        else:
+            m = 100 if small else 10 ** rng.randint(2, 6)
+            lo = 0 if rng.random() < 0.3 else -m
+            cols.append(np.array([float(rng.randint(lo, m)) for _ in range(n)]))
+            polys.append(None)
+    y = np.stack(cols, axis=1).reshape((n,) + tuple(tail)) if tail else cols[0]
+    c = rng.random()
+    if c < 0.5:
+        xn = np.array([float(rng.randint(int(x[0]), int(x[-1]))) for _ in range(k)])
+    elif c < 0.75:
+        xn = np.array([min(float(rng.randint(int(x[0]), int(x[-1]))) + 0.5, float(x[-1])) for _ in range(k)])
+    else:
+        xn = np.array([rng.uniform(float(x[0]), float(x[-1])) for _ in range(k)])
+    return x, y, polys, xn
+
+
 def call_interp(kind, x, y, xn, **kw):
     from midgard.math import interpolation as ip
     with warnings.catch_warnings():
@@ -458,6 +500,9 @@ def lagrange_part(ctx: Ctx, drv):
             y, polys = gen_y(rng, x, tail, w)
             k = rng.randint(1, 8)
             xn = gen_xnew(rng, x, flavour, k)
+            if rng.random() < 0.25:
+                x, y, polys, xn = gen_integer_samples(rng, n, w, tail, k)
+                flavour = "integer"
             be, srt = True, rng.random() < 0.3
             mode = "ok"
             c = rng.random()
@@ -480,11 +525,18 @@ def lagrange_part(ctx: Ctx, drv):
                 mode = "outside" if be else "extrapolate"
             elif c < 0.27:
                 yi = yi[:-1]; mode = "shape"
+            # the arrays go to the code in a dtype that holds their values exactly (the model gets the values)
+            dts = {"x": T.pick_dtype(rng, xi, CORR_DT), "y": T.pick_dtype(rng, yi, CORR_DT + ["float16", "float32"]),
+                   "xn": T.pick_dtype(rng, xn, CORR_DT + ["float16", "float32"])}
+            if dts["x"] == "bool":
+                dts["x"] = "float64"
             case = {"part": "lagrange", "n": n, "w": w, "tail": list(tail), "k": k, "flavour": flavour, "sorted_flag": srt,
-                    "bounds_error": be, "mode": mode, "x": [fl(v) for v in xi], "xn": [fl(v) for v in xn],
+                    "bounds_error": be, "mode": mode, "dtypes": dts, "x": [fl(v) for v in xi], "xn": [fl(v) for v in xn],
                     "y": [fl(v) for v in np.asarray(yi).ravel()]}
             ctx.case(case, nontrivial=(mode in ("ok", "extrapolate")))
             ctx.count(f"lagrange:{mode}")
+            for a_ in ("x", "y", "xn"):
+                ctx.count(f"lagrange:dtype:{a_}={T.dtclass(dts[a_])}")
             ctx.count(f"lagrange:ydim={1 + len(tail)}")
             ctx.count(f"lagrange:x={flavour}")
             for v in xn:   # exact ties between the two nearest samples exercise the first-minimum rule of argmin
@@ -495,12 +547,20 @@ def lagrange_part(ctx: Ctx, drv):
                     ctx.count("lagrange:xnew-is-a-sample")
             # ---- implementation
             try:
-                r = call_interp("lagrange", xi, yi, xn, window=w, bounds_error=be, assume_sorted=srt)
+                txi, tyi, txn = T.apply_dtypes(dts, xi, yi, xn)
+                r = call_interp("lagrange", txi, tyi, txn, window=w, bounds_error=be, assume_sorted=srt)
+                if np.asarray(r).dtype.kind != "f":
+                    V(ctx, "lagrange:result-dtype", f"lagrange returns an array of dtype {np.asarray(r).dtype} for x/y/x_new of dtype "
+                      f"{dts['x']}/{dts['y']}/{dts['xn']}", case)
                 impl = ("ok", np.asarray(r, dtype=float))
             except ValueError as e:
                 impl = ("err", classify_error(e))
             except Exception as e:  # noqa
                 impl = ("err", f"ERR:{type(e).__name__}:{str(e)[:80]}")
+            # ---- oracle: with assume_sorted=True, samples that are not strictly increasing are refused, whatever their dtype
+            if srt and impl[0] == "ok" and len(yi) == len(xi) and 3 <= w <= len(xi) and not np.all(np.diff(np.asarray(xi, dtype=float)) > 0):
+                V(ctx, "lagrange:unsorted-accepted", f"lagrange(assume_sorted=True) interpolates through x of dtype {dts['x']} that is not "
+                  f"strictly increasing instead of raising ValueError", case)
             # ---- model
             dim = int(np.prod(tail)) if tail else 1
             rows = np.asarray(yi, dtype=float).reshape(len(yi), dim)
@@ -615,6 +675,91 @@ def interp_oracle(ctx: Ctx, kind, case, x, y, xn, polys, tail, w, kw):
         V(ctx, f"interp:{kind}:raises:{type(e).__name__}", f"{kind} raised {type(e).__name__}: {str(e)[:120]} on valid input (y tail {tail})", case)
 
 
+def derivative_model_part(ctx: Ctx, drv):
+    """interpolate_with_derivative(kind="lagrange") vs the Lean model `lagrangeDeriv` (values, derivative, and the
+    error raised when x_new, x_new + dx or x_new - dx leaves the sample range); oracle: the derivative of data on a
+    parabola is exact (theorem derivative_exact_quadratic, stated here on the real code)"""
+    from midgard.math import interpolation as ip
+
+    rng = ctx.rng
+    for ci in range(ctx.budget(60, 1200)):
+        with guard(ctx, "derivative"):
+            n = rng.randint(4, 24)
+            w = rng.randint(3, min(9, n))
+            x, flavour = gen_abscissae(rng, n)
+            tail = rng.choice([(), (), (2,), (2, 2)])
+            dim = int(np.prod(tail)) if tail else 1
+            quad = rng.random() < 0.4
+            span = float(x[-1] - x[0])
+            if quad:      # a + b t + c t^2 in t = (x - x0) / span, per component
+                co = [[rng.uniform(-3, 3) for _ in range(3)] for _ in range(dim)]
+                t = (x - x[0]) / span
+                y = np.stack([c0 + c1 * t + c2 * t * t for c0, c1, c2 in co], axis=1).reshape((n,) + tuple(tail))
+            else:
+                y, _ = gen_y(rng, x, tail, w)
+            gap = float(np.min(np.diff(x)))
+            dx = gap * rng.choice([0.5, 0.25, 1.0, 2.0]) * rng.choice([1, 1, 1, -1])
+            k = rng.randint(1, 5)
+            xn = np.array([rng.uniform(x[0] + abs(dx), x[-1] - abs(dx)) for _ in range(k)])
+            mode = "ok"
+            be = True
+            c = rng.random()
+            if c < 0.12:       # x_new + dx or x_new - dx leaves the range (x_new itself stays inside)
+                xn = xn.copy(); xn[rng.randrange(k)] = rng.choice([x[0] + abs(dx) * rng.random() * 0.9, x[-1] - abs(dx) * rng.random() * 0.9])
+                be = rng.random() < 0.7
+                mode = "shifted-outside" if be else "shifted-extrapolates"
+            elif c < 0.18:
+                xn = xn.copy(); xn[rng.randrange(k)] = rng.choice([x[0] - span * 0.1, x[-1] + span * 0.1]); mode = "outside"
+            srt = rng.random() < 0.4
+            perm = np.arange(n) if srt else np.array(rng.sample(range(n), n))
+            xi, yi = x[perm], y[perm]
+            case = {"part": "derivative-lagrange", "kind": "lagrange", "n": n, "w": w, "tail": list(tail), "dx": fl(dx), "mode": mode,
+                    "bounds_error": be, "sorted_flag": srt, "x": [fl(v) for v in xi], "xn": [fl(v) for v in xn],
+                    "y": [fl(v) for v in np.asarray(yi).ravel()]}
+            ctx.case(case)
+            ctx.count(f"derivative-model:{mode}")
+            ctx.count("derivative-model:parabola" if quad else "derivative-model:other-data")
+            try:
+                with warnings.catch_warnings():
+                    warnings.simplefilter("ignore")
+                    yn, yd = ip.interpolate_with_derivative(xi, yi, xn, kind="lagrange", dx=dx, window=w, bounds_error=be, assume_sorted=srt)
+                impl = ("ok", np.asarray(yn, dtype=float).reshape(k, dim), np.asarray(yd, dtype=float).reshape(k, dim))
+            except ValueError as e:
+                impl = ("err", classify_error(e))
+            rows = np.asarray(yi, dtype=float).reshape(n, dim)
+            s_ = float(np.std(xi))
+            m = drv.ask1(f"c20 lagderiv {w} {int(be)} {int(srt)} {rs(frac(s_))} {dim} {rl(frac(v) for v in xi)} "
+                         f"{rrows([frac(v) for v in row] for row in rows)} {rl(frac(v) for v in xn)} {rs(frac(dx))}")
+            if m.startswith("err ") or impl[0] == "err":
+                if (m[4:] if m.startswith("err ") else "ok") != (impl[1] if impl[0] == "err" else "ok"):
+                    ctx.disagree("interpolate_with_derivative(lagrange) error branch", case, m[:60], list(map(str, impl[:2])))
+                continue
+            mv, md = (prows(t_) for t_ in m[3:].split(" "))
+            W = np.asarray(call_interp("lagrange", xi, np.eye(n), np.concatenate([xn, xn + dx, xn - dx]), window=w, bounds_error=False, assume_sorted=srt), dtype=float)
+            amp = 1.0 + float(np.max(np.abs(x - x.mean())) / gap)
+            cond0 = np.abs(W[:k]) @ np.abs(rows)
+            xulp = float(np.spacing(np.max(np.abs(x))))
+            cond1 = (np.abs(W[k:2 * k]) + np.abs(W[2 * k:])) @ np.abs(rows)
+            for a in range(k):
+                for cdx in range(dim):
+                    if abs(frac(impl[1][a, cdx]) - mv[a][cdx]) > frac(1e-14 * w * amp * float(cond0[a, cdx]) + 1e-300):
+                        ctx.disagree("interpolate_with_derivative(lagrange) value", {**case, "at": [a, cdx]}, float(mv[a][cdx]), float(impl[1][a, cdx]))
+                    # x_new +- dx is rounded to a double before the interpolant sees it: |f'| * ulp(x) / |dx| on top
+                    if abs(frac(impl[2][a, cdx]) - md[a][cdx]) > frac((1e-14 * w * amp * float(cond1[a, cdx]) + 1e-300) / abs(2 * dx)
+                                                                      + 2 * xulp * abs(float(md[a][cdx])) / abs(dx)):
+                        ctx.disagree("interpolate_with_derivative(lagrange) derivative", {**case, "at": [a, cdx]}, float(md[a][cdx]), float(impl[2][a, cdx]))
+            if quad:
+                tn = (xn - x[0]) / span
+                for cdx, (c0, c1, c2) in enumerate(co):
+                    want = (c1 + 2 * c2 * tn) / span
+                    tol = 1e-12 * w * amp * (np.abs(W[k:2 * k]).sum(axis=1) + np.abs(W[2 * k:]).sum(axis=1)) * (abs(c0) + abs(c1) + abs(c2)) / abs(2 * dx) \
+                        + 2 * xulp * np.abs(want) / abs(dx)
+                    if not np.all(np.abs(impl[2][:, cdx] - want) <= tol):
+                        V(ctx, "interp:derivative:parabola:lagrange", f"the derivative of data on a parabola (window {w}, dx = {dx!r}) is off by "
+                          f"{float(np.max(np.abs(impl[2][:, cdx] - want))):.3e}", {**case, "coeffs": [c0, c1, c2]})
+                        break
+
+
 def derivative_part(ctx: Ctx):
     """interpolate_with_derivative: same values as interpolate, derivative = central difference of the interpolant
     over x_new +- dx (the documented definition), hence exact slope for data on a line; every interpolator"""
@@ -674,8 +819,15 @@ def scipy_part(ctx: Ctx, drv):
                 y, _ = gen_y(rng, x, tail, 3)
                 k = rng.randint(1, 6)
                 xn = gen_xnew(rng, x, flavour, k)
+                if kind == "linear" and rng.random() < 0.3:
+                    x, y, _, xn = gen_integer_samples(rng, n, 3, tail, k)
+                    flavour = "integer"
                 case = {"part": kind, "n": n, "tail": list(tail), "k": k, "flavour": flavour,
                         "x": [fl(v) for v in x], "xn": [fl(v) for v in xn], "y": [fl(v) for v in np.asarray(y).ravel()]}
+                if kind == "linear":
+                    case["dtypes"] = {"x": T.pick_dtype(rng, x, T.INT_DT), "y": T.pick_dtype(rng, y, CORR_DT), "xn": T.pick_dtype(rng, xn, T.INT_DT)}
+                    for a_ in ("x", "y", "xn"):
+                        ctx.count(f"linear:dtype:{a_}={T.dtclass(case['dtypes'][a_])}")
                 ctx.case(case)
                 ctx.count(f"{kind}:ydim={1 + len(tail)}")
                 interp_oracle(ctx, kind, case, x, y, xn, None, tail, 4, {})
@@ -687,7 +839,10 @@ def scipy_part(ctx: Ctx, drv):
                             f"{rrows([frac(v) for v in row] for row in rows[perm])} {rl(frac(v) for v in xn)}")
                     m = drv.ask1(line)
                     try:
-                        r = np.asarray(call_interp(kind, x[perm], y[perm], xn), dtype=float).reshape(len(xn), dim)
+                        r = np.asarray(call_interp(kind, *T.apply_dtypes(case["dtypes"], x[perm], y[perm], xn)))
+                        if r.dtype.kind != "f":
+                            V(ctx, "linear:result-dtype", f"linear returns an array of dtype {r.dtype} for dtypes {case['dtypes']}", case)
+                        r = np.asarray(r, dtype=float).reshape(len(xn), dim)
                     except Exception as e:  # noqa
                         ctx.disagree("linear raised", case, m[:60], str(e)[:80])
                         continue
@@ -1110,6 +1265,9 @@ def run(ctx: Ctx):
     lagrange_part(ctx, drv)
     scipy_part(ctx, drv)
     derivative_part(ctx)
+    derivative_model_part(ctx, drv)
+    import sys
+    T.types_part(ctx, sys.modules[__name__], info)
     dops_part(ctx, drv)
     plate_part(ctx, drv, info)
     linreg_part(ctx, drv)
@@ -1153,7 +1311,10 @@ def replay(payload):
             print("no failing input was found for this report; it names what no longer checks:",
                   payload.get("no_longer_checks"))
             return 0
-        if part == "dms":
+        if part in T.CHECKS:
+            import sys
+            bad = T.replay_case(ctx, sys.modules[__name__], c)
+        elif part == "dms":
             x = _hx(c["deg"])
             d, m, sec = (float(v) for v in Unit.deg_to_dms(x))
             back = float(Unit.dms_to_deg(d, m, sec))
@@ -1205,12 +1366,23 @@ def replay(payload):
                 y = yflat.reshape((len(yflat) // max(1, int(np.prod(tail)) if tail else 1),) + tail)
                 kw = {"window": c["w"], "bounds_error": c.get("bounds_error", True)} if kind == "lagrange" else {}
                 if len(y) != len(x) or c.get("mode", "ok") not in ("ok", "extrapolate"):
-                    r = call_interp(kind, x, y, xn, **kw, **({"assume_sorted": c.get("sorted_flag", False)} if kind == "lagrange" else {}))
-                    print("result", np.asarray(r).ravel()[:6])
-                    bad = False
+                    tx, ty, txn = T.apply_dtypes(c.get("dtypes"), x, y, xn)
+                    try:
+                        r = call_interp(kind, tx, ty, txn, **kw, **({"assume_sorted": c.get("sorted_flag", False)} if kind == "lagrange" else {}))
+                        print("result", np.asarray(r).ravel()[:6])
+                        # with assume_sorted=True, samples that are not strictly increasing must be refused
+                        bad = bool(c.get("sorted_flag")) and len(y) == len(x) and 3 <= c.get("w", 3) <= len(x) and not np.all(np.diff(x) > 0)
+                    except ValueError as e:
+                        print("raises ValueError:", e)
+                        bad = False
                 else:
                     o = np.argsort(x)
                     interp_oracle(ctx, kind, c, x[o], y[o], xn, None, tail, c.get("w", 4), kw)
+                    if c.get("dtypes") and kind in ("lagrange", "linear"):
+                        import sys
+                        inv = np.argsort(o)      # the samples in the order of the case
+                        T.check_interp(ctx, sys.modules[__name__], {"kind": kind, "tail": list(tail), "dtypes": c["dtypes"], "w": c.get("w", 4),
+                                                                    "perm": inv.tolist(), "x": list(x[o]), "xn": list(xn), "y": list(np.asarray(y[o]).ravel())})
                     bad = bool(ctx.violations)
                     for v in ctx.violations:
                         print("  oracle:", v.key, "|", v.what)
